@@ -238,10 +238,33 @@ func timeCountMap(s *rfl.Stream) *hmap.IntKeyMap {
 }
 
 // Records of the record-list packs.
+// largeRecords switches the record-list builders to counts around the 16-bit boundary of the record counter.
+var largeRecords bool
+
+// recN is the number of records of a record-list pack.
+func recN(s *rfl.Stream, small int) int {
+	if !largeRecords {
+		return s.LenSmall(small)
+	}
+	return []int{32767, 32768, 32769 + s.Intn(30000), 65535}[s.Intn(4)]
+}
+
+// distinctN: large lists repeat 8 distinct records (filling 65535 records reflectively would dominate the run).
+func distinctN(n int) int {
+	if n > 8 {
+		return 8
+	}
+	return n
+}
+
 func ServiceRecs(s *rfl.Stream) []*pack.ServiceRec {
-	n := s.LenSmall(4)
+	n := recN(s, 4)
 	out := make([]*pack.ServiceRec, n)
 	for i := range out {
+		if i >= distinctN(n) {
+			out[i] = out[i%8]
+			continue
+		}
 		r := pack.NewServiceRec()
 		rfl.Fill(r, s, opts())
 		r.SqlMap = timeCountMap(s)
@@ -252,9 +275,13 @@ func ServiceRecs(s *rfl.Stream) []*pack.ServiceRec {
 }
 
 func TransactionRecs(s *rfl.Stream) []*pack.TransactionRec {
-	n := s.LenSmall(4)
+	n := recN(s, 4)
 	out := make([]*pack.TransactionRec, n)
 	for i := range out {
+		if i >= distinctN(n) {
+			out[i] = out[i%8]
+			continue
+		}
 		r := pack.NewTransactionRec()
 		rfl.Fill(r, s, opts())
 		r.SqlMap = timeCountMap(s)
@@ -403,6 +430,21 @@ var registeredInner = []string{"ParamPack", "TextPack", "LogSinkPack", "TagCount
 func innerPacks(s *rfl.Stream, depth int, onlyLogSink bool) []pack.Pack {
 	n := s.LenSmall(4)
 	var out []pack.Pack
+	if largeRecords && depth == 0 {
+		// tens of thousands of inner packs: 8 distinct small text packs, repeated
+		n = recN(s, 4)
+		for i := 0; i < n; i++ {
+			if i >= 8 {
+				out = append(out, out[i%8])
+				continue
+			}
+			tp := pack.NewTextPack()
+			header(tp, s)
+			tp.AddText(pack.TextRec{Div: byte(i), Hash: int32(s.Int64()), Text: s.String()})
+			out = append(out, tp)
+		}
+		return out
+	}
 	for i := 0; i < n; i++ {
 		name := "LogSinkPack"
 		if !onlyLogSink {
@@ -561,7 +603,7 @@ func init() {
 	simple("StatServicePack", pack.PACK_STAT_SERVICE, true, func() pack.Pack { return pack.NewStatServicePack() },
 		func(p pack.Pack, s *rfl.Stream, _ int) {
 			sp := p.(*pack.StatServicePack)
-			if s.Intn(4) == 0 {
+			if !largeRecords && s.Intn(4) == 0 {
 				sp.Records, sp.RecordCount = nil, 0
 				return
 			}
@@ -582,13 +624,17 @@ func init() {
 	simple("StatSqlPack", pack.PACK_STAT_SQL, true, func() pack.Pack { return pack.NewStatSqlPack() },
 		func(p pack.Pack, s *rfl.Stream, _ int) {
 			sp := p.(*pack.StatSqlPack)
-			if s.Intn(5) == 0 {
+			if !largeRecords && s.Intn(5) == 0 {
 				sp.Records, sp.RecordCount = nil, 0
 				return
 			}
-			n := s.LenSmall(4)
+			n := recN(s, 4)
 			recs := make([]*pack.SqlRec, n)
 			for i := range recs {
+				if i >= distinctN(n) {
+					recs[i] = recs[i%8]
+					continue
+				}
 				recs[i] = pack.NewSqlRec()
 				rfl.Fill(recs[i], s, opts())
 			}
@@ -603,13 +649,17 @@ func init() {
 	simple("StatHttpcPack", pack.PACK_STAT_HTTPC, true, func() pack.Pack { return pack.NewStatHttpcPack() },
 		func(p pack.Pack, s *rfl.Stream, _ int) {
 			sp := p.(*pack.StatHttpcPack)
-			if s.Intn(5) == 0 {
+			if !largeRecords && s.Intn(5) == 0 {
 				sp.Records, sp.RecordCount = nil, 0
 				return
 			}
-			n := s.LenSmall(4)
+			n := recN(s, 4)
 			recs := make([]*pack.HttpcRec, n)
 			for i := range recs {
+				if i >= distinctN(n) {
+					recs[i] = recs[i%8]
+					continue
+				}
 				recs[i] = pack.NewHttpcRec()
 				rfl.Fill(recs[i], s, opts())
 			}
@@ -624,9 +674,13 @@ func init() {
 	simple("StatErrorPack", pack.PACK_STAT_ERROR, true, func() pack.Pack { return pack.NewStatErrorPack() },
 		func(p pack.Pack, s *rfl.Stream, _ int) {
 			sp := p.(*pack.StatErrorPack)
-			n := s.LenSmall(4)
+			n := recN(s, 4)
 			recs := make([]*pack.ErrorRec, n)
 			for i := range recs {
+				if i >= distinctN(n) {
+					recs[i] = recs[i%8]
+					continue
+				}
 				recs[i] = pack.NewErrorRec()
 				rfl.Fill(recs[i], s, opts())
 			}
@@ -923,9 +977,13 @@ func init() {
 	simple("SMDownCheckPack", pack.PACK_SM_DOWN_CHECK, false, func() pack.Pack { return pack.NewSMDownCheckPack() },
 		func(p pack.Pack, s *rfl.Stream, _ int) {
 			dp := p.(*pack.SMDownCheckPack)
-			n := s.LenSmall(4)
+			n := recN(s, 4)
 			recs := make([]*pack.DownCheckRec, n)
 			for i := range recs {
+				if i >= distinctN(n) {
+					recs[i] = recs[i%8]
+					continue
+				}
 				recs[i] = &pack.DownCheckRec{}
 				rfl.Fill(recs[i], s, opts())
 			}
@@ -992,6 +1050,9 @@ func buildGeneral(p *pack.StatGeneralPack, s *rfl.Stream) pack.Pack {
 	p.DataStartTime = s.Int64()
 	cols := s.LenSmall(4)
 	rows := s.LenSmall(6)
+	if largeRecords {
+		cols, rows = recN(s, 4), 1
+	}
 	for i := 0; i < cols; i++ {
 		p.Put(fmt.Sprintf("%s%d", sKey(s, i), i), anyList(s, rows))
 	}
@@ -1135,3 +1196,20 @@ func hexs(b []byte) string     { return gen.Hex(b) }
 func unhexs(s string) []byte   { return gen.UnHex(s) }
 func f32bits(f float32) uint32 { return math.Float32bits(f) }
 func f64bits(f float64) uint64 { return math.Float64bits(f) }
+
+// Record-list packs with record counts around the boundaries of the 16-bit record counter.
+var LargeRecordTypes = []string{"StatSqlPack", "StatHttpcPack", "StatErrorPack", "StatServicePack", "StatTransactionPack", "StatTransactionPack1", "SMDownCheckPack", "CompositePack", "StatGeneralPack"}
+
+func init() {
+	for _, name := range LargeRecordTypes {
+		base := ByName[name]
+		sp := *base
+		sp.Name = name + "/large"
+		sp.Build = func(s *rfl.Stream, depth int) pack.Pack {
+			largeRecords = true
+			defer func() { largeRecords = false }()
+			return base.Build(s, depth)
+		}
+		add(&sp)
+	}
+}
